@@ -31,7 +31,7 @@ from qstrader.statistics.tearsheet import TearsheetStatistics
 assert os.path.realpath(qstrader.__file__).startswith(
     os.path.realpath(os.environ.get("QSTRADER_ROOT", "/repo"))
 ), qstrader.__file__
-settings.PRINT_EVENTS = False
+settings.PRINT_EVENTS = os.environ.get("PYVC_AMBIENT") == "1"      # (ambient re-run: the library default True, output discarded)
 
 PROPERTY = "C17"
 PROPERTIES = ["C17"]
@@ -497,6 +497,21 @@ def _run_case_inner(case, acc):
         mdd_b = spec_drawdowns(rev)[1]
         acc.check('max-drawdown', _close(jb['benchmark']['max_drawdown'], mdd_b), case, {'via': 'json+benchmark', 'block': 'benchmark'},
                   jb['benchmark']['max_drawdown'], mdd_b)
+
+    # ---- the SAME frame object exported again after its Equity column was replaced: the second export is about the new values ----
+    df_re = pd.DataFrame({'Equity': list(equity)}, index=idx)
+    first = _call(lambda: JSONStatistics(equity_curve=df_re, target_allocations=pd.DataFrame(), periods=periods).statistics['strategy'])
+    df_re['Equity'] = rev
+    second = _call(lambda: JSONStatistics(equity_curve=df_re, target_allocations=pd.DataFrame(), periods=periods).statistics['strategy'])
+    if isinstance(first, str) or isinstance(second, str):
+        acc.check('tearsheet-json-agree', False, case, {'what': 'json-exported-twice-runs'}, [str(first)[:80], str(second)[:80]], 'runs')
+    else:
+        at = _list_close(_vals(second['returns']), r_b)
+        acc.check('cumulative-returns', at is None, case, {'via': 'json, frame re-exported with new equity', 'what': 'returns', 'first_diff_at': at},
+                  _short(_vals(second['returns']), at), _short(r_b, at))
+        exp = _call(spec_cagr, rev[-1] / rev[0], n, periods)
+        if not isinstance(exp, str):
+            acc.check('cagr', _close(second['cagr'], exp), case, {'via': 'json, frame re-exported with new equity'}, second['cagr'], exp)
 
     # ---- tear-sheet and JSON export report the same numbers ----
     for name, a, b in (('sharpe', tear['sharpe'], js['sharpe']),
